@@ -139,6 +139,24 @@ pub struct DG {
 }
 show_struct!(DG, kind, name, nums, flag);
 
+/// attributes split over several `#[jomini(..)]` lists, and Option fields spelled with a qualified
+/// path (what macro-generated structs use)
+#[derive(JominiDeserialize, Debug)]
+pub struct DH {
+    #[jomini(alias = "core")]
+    #[jomini(duplicated)]
+    cores: Vec<String>,
+    #[jomini(take_last)]
+    #[jomini(alias = "chk")]
+    checksum: String,
+    opt_q: std::option::Option<u32>,
+    opt_c: ::core::option::Option<String>,
+    #[jomini(default)]
+    #[jomini(alias = "n")]
+    count: u32,
+}
+show_struct!(DH, cores, checksum, opt_q, opt_c, count);
+
 #[derive(JominiDeserialize, Debug)]
 pub struct DSub {
     id: u32,
@@ -207,6 +225,7 @@ pub fn dispatch(kind: &str, a: &[&str]) -> Option<String> {
                 "DA" => fin(run_text::<DA>(path, e, &data, &mut s)),
                 "DB" => fin(run_text::<DB>(path, e, &data, &mut s)),
                 "DG" => fin(run_text::<DG>(path, e, &data, &mut s)),
+                "DH" => fin(run_text::<DH>(path, e, &data, &mut s)),
                 "DC" => fin(run_text::<DC>(path, e, &data, &mut s)),
                 "DD" => fin(run_text::<DD>(path, e, &data, &mut s)),
                 "DE" => fin(run_text::<DE>(path, e, &data, &mut s)),
@@ -227,6 +246,7 @@ pub fn dispatch(kind: &str, a: &[&str]) -> Option<String> {
                 "DA" => fin(run_bin::<DA>(path, sg, &res, f, &data, &mut s)),
                 "DB" => fin(run_bin::<DB>(path, sg, &res, f, &data, &mut s)),
                 "DG" => fin(run_bin::<DG>(path, sg, &res, f, &data, &mut s)),
+                "DH" => fin(run_bin::<DH>(path, sg, &res, f, &data, &mut s)),
                 "DC" => fin(run_bin::<DC>(path, sg, &res, f, &data, &mut s)),
                 "DD" => fin(run_bin::<DD>(path, sg, &res, f, &data, &mut s)),
                 "DE" => fin(run_bin::<DE>(path, sg, &res, f, &data, &mut s)),
